@@ -126,7 +126,20 @@ func (s *Server) Serve(l net.Listener) error {
 			return err
 		}
 
+		// Shutdown waits for the connections counted here: the count may only
+		// go up while the server is open (an Add concurrent with Shutdown's
+		// Wait is a misuse of sync.WaitGroup, and the connection would be
+		// served behind Shutdown's back).
+		s.locker.Lock()
+		select {
+		case <-s.done:
+			s.locker.Unlock()
+			c.Close()
+			return nil
+		default:
+		}
 		s.wg.Add(1)
+		s.locker.Unlock()
 		go func() {
 			defer s.wg.Done()
 
